@@ -72,4 +72,104 @@ theorem C03_readme_example :
   rw [hu]
   simp [e1, e2]
 
+/-- two independently accepted sets of blocks with unrelated headers are accepted together, as the concatenation
+    of their families -/
+theorem C03_independent_buckets (items1 items2 : List T) (g1 g2 : Groups)
+    (hdisj : ∀ b1 ∈ items1.map mkBlk, ∀ b2 ∈ items2.map mkBlk, groupIdOf b1.item ≠ groupIdOf b2.item)
+    (hn : noNesting (items1 ++ items2) = true)
+    (h1 : parseGroups items1 = .ok g1) (h2 : parseGroups items2 = .ok g2) :
+    parseGroups (items1 ++ items2) = .ok (g1 ++ g2) := by
+  rw [C11_independent items1 items2 hdisj hn, h1, h2]
+  rfl
+
+/-- `Box<x>` -/
+def Ex11.boxOf (x : T) : T := Ex11.tyPath [.node "PathSegment" [] [.node "Ident" ["Box"] [],
+  .node "PathArguments::AngleBracketed" [] [.node "Ign" [] [Ex11.leaf "None"], .node "List" [] [.node "GenericArgument::Type" [] [x]]]]]
+
+set_option maxRecDepth 1000000 in
+/-- non-vacuity of `C03_independent_buckets`: the two-block example for `Vec<T>` and the same for `Box<T>` -/
+example :
+    let items1 := [Ex11.blockSelf "GroupA" (Ex11.vecOf Ex11.tT), Ex11.blockSelf "GroupB" (Ex11.vecOf Ex11.tT)]
+    let items2 := [Ex11.blockSelf "GroupA" (Ex11.boxOf Ex11.tT), Ex11.blockSelf "GroupB" (Ex11.boxOf Ex11.tT)]
+    ∃ g1 g2, parseGroups (items1 ++ items2) = .ok (g1 ++ g2) ∧ g1.length = 1 ∧ g2.length = 1 := by
+  intro items1 items2
+  obtain ⟨g1, h1, l1⟩ := ParseResult.ok_of_check (r := parseGroups items1) (f := fun gs => gs.length == 1)
+    (by with_unfolding_all decide)
+  obtain ⟨g2, h2, l2⟩ := ParseResult.ok_of_check (r := parseGroups items2) (f := fun gs => gs.length == 1)
+    (by with_unfolding_all decide)
+  refine ⟨g1, g2, C03_independent_buckets items1 items2 g1 g2 ?_ (by with_unfolding_all decide) h1 h2,
+    by simpa using l1, by simpa using l2⟩
+  intro b1 hb1 b2 hb2
+  simp only [items1, items2, List.map_cons, List.map_nil, List.mem_cons, List.mem_nil_iff, or_false] at hb1 hb2
+  rcases hb1 with rfl | rfl <;> rcases hb2 with rfl | rfl <;> with_unfolding_all decide
+
+/-! ## Several keys -/
+
+/-- one bucket, several keys: blocks with the same header that all carry the same `n ≥ 1` keys in the same order
+    (`alignedChainB`: position by position `keyEq`, no key `keyEq` to a later one), each binding every key, whose
+    rows pass the candidate filter (every key has a non-empty row, rows pairwise not generalising —
+    `isOverlapping = false`), are accepted as one family with those keys and one row per block.
+    All hypotheses are executable. -/
+theorem C03_multi_key_accepts (items : List T) (gid : T) (b1 : Blk) (other : List Blk)
+    (hB : items.map mkBlk = b1 :: other)
+    (hid : ∀ b ∈ b1 :: other, groupIdOf b.item = gid) (hnd : ((b1 :: other).map (·.item)).Nodup)
+    (hd : distinctKeysB b1.ks = true) (hch : alignedChainB b1.ks other = true) (hself : selfIdentity gid = true)
+    (h1 : ((lastKs b1.ks other).zip (addRows (b1.rs.map (fun r => [r])) other)).all
+      (fun kr => kr.2.any (fun r => !r.isEmpty)) = true)
+    (h2 : b1.raw ≠ [])
+    (h3 : (ABG.mk ((lastKs b1.ks other).zip (addRows (b1.rs.map (fun r => [r])) other)) []).isOverlapping = false) :
+    ∃ u, parseGroups items =
+      .ok [(gid, ⟨(lastKs b1.ks other).zip (addRows (b1.rs.map (fun r => [r])) other), u⟩, b1 :: other)] := by
+  have hch' := alignedChain_of_B hch
+  apply parseGroups_multi_key items gid b1 other hB hid hnd (distinctKeys_of_B hd) hch' hself
+    (by simpa [List.all_eq_true] using h1) ?_ h3
+  -- the family has as many keys as the first block has bounds
+  intro h0
+  have hlen : ∀ (ks : List BKey) (rowss : List (List Row)) (bs : List Blk), AlignedChain ks bs → rowss.length = ks.length →
+      ((lastKs ks bs).zip (addRows rowss bs)).length = ks.length := by
+    intro ks rowss bs
+    induction bs generalizing ks rowss with
+    | nil => intro _ hl; simp [lastKs, addRows, hl]
+    | cons b rest ih =>
+      intro ⟨hal, _, hr⟩ hl
+      have hkl := hal.length_eq
+      simp only [lastKs, addRows]
+      rw [ih b.ks _ hr (by simp [Blk.ks, Blk.rs, hkl ▸ hl])]
+      exact hkl.symm
+  have := hlen b1.ks (b1.rs.map (fun r => [r])) other hch' (by simp [Blk.ks, Blk.rs])
+  rw [h0] at this
+  simp only [List.length_nil, Blk.ks, List.length_map] at this
+  exact h2 (List.length_eq_zero_iff.1 this.symm)
+
+namespace Ex11
+/-- `Other<Kind = k>` -/
+def otherTr (k : String) : T :=
+  path [.node "PathSegment" [] [.node "Ident" ["Other"] [], .node "PathArguments::AngleBracketed" [] [.node "Ign" [] [leaf "None"],
+    .node "List" [] [.node "GenericArgument::AssocType" [] [.node "AssocType" [] [.node "Ident" ["Kind"] [], leaf "None", tyPath [seg k]]]]]]]
+/-- `impl<T: Dispatch<Group = g> + Other<Kind = k>> Kita for T {}` -/
+def block2 (g k : String) : T := implOf [tyParam "T" [traitBound (dispatch g), traitBound (otherTr k)]] tT
+end Ex11
+
+set_option maxRecDepth 1000000 in
+/-- non-vacuity: two blocks with two keys each (`T: Dispatch<Group = …> + Other<Kind = …>`) satisfy every hypothesis;
+    the theorem yields one family with 2 keys and 2 members -/
+example :
+    ∃ gid abg b1 b2, parseGroups [Ex11.block2 "GroupA" "X", Ex11.block2 "GroupB" "Y"] = .ok [(gid, abg, [b1, b2])] ∧
+      abg.bounds.length = 2 := by
+  let items := [Ex11.block2 "GroupA" "X", Ex11.block2 "GroupB" "Y"]
+  let b1 := mkBlk (Ex11.block2 "GroupA" "X")
+  let b2 := mkBlk (Ex11.block2 "GroupB" "Y")
+  obtain ⟨u, hu⟩ := C03_multi_key_accepts items (groupIdOf b1.item) b1 [b2] rfl
+    (by intro b hb; simp only [List.mem_cons, List.mem_nil_iff, or_false] at hb
+        rcases hb with rfl | rfl
+        · rfl
+        · with_unfolding_all decide)
+    (by with_unfolding_all decide) (by with_unfolding_all decide) (by with_unfolding_all decide)
+    (by with_unfolding_all decide) (by with_unfolding_all decide) (by with_unfolding_all decide)
+    (by with_unfolding_all decide)
+  have hlen : ((lastKs (mkBlk (Ex11.block2 "GroupA" "X")).ks [mkBlk (Ex11.block2 "GroupB" "Y")]).zip
+      (addRows ((mkBlk (Ex11.block2 "GroupA" "X")).rs.map (fun r => [r])) [mkBlk (Ex11.block2 "GroupB" "Y")])).length = 2 := by
+    with_unfolding_all decide
+  exact ⟨_, _, b1, b2, hu, hlen⟩
+
 end DI
